@@ -28,7 +28,8 @@ import (
 
 // SStep is one call of a serialiser.
 type SStep struct {
-	Kind     string  `json:"kind"` // bytes ext txidbytes txid string size cleared inbytes outbytes outsighash varint varintlen upper reverse le
+	Kind     string  `json:"kind"` // bytes ext txidbytes txid string size cleared inbytes outbytes outsighash varint varintlen upper reverse le fail
+	Fail     string  `json:"fail,omitempty"` // fail: which failing call (failKinds); at = position of the damage / the cut, v = entry point variant, clear = extended format
 	Tx       int     `json:"tx,omitempty"`
 	At       int     `json:"at,omitempty"`     // element index (modulo the count); cleared: used as is (may be out of range, -1 included)
 	Script   pbt.Hex `json:"script,omitempty"` // cleared: the script given
@@ -186,6 +187,26 @@ func checkSerial(ctx *pbt.Ctx, c Serial) error {
 		var got []byte
 		var wants [][]byte
 		switch s.Kind {
+		case "fail":
+			// a call that fails (panic recovered / error returned): nothing is asserted about
+			// it, but it must leave no trace in anything computed afterwards
+			if !knownFailKind(s.Fail) {
+				ctx.Discard("invalid case: failing call")
+				return nil
+			}
+			ctx.Label("failing call " + s.Fail + ": " + failingCall(s.Fail, m, s.At, int(s.V%1000), s.Clear))
+			after := what + " (" + s.Fail + ")"
+			if err := varintsHold("after the failed call of " + after); err != nil {
+				return err
+			}
+			if err := txsHold("after the failed call of "+after, libs, c.Txs); err != nil {
+				return err
+			}
+			if g, w := libs[0].TxID(), hex.EncodeToString(ref.Reverse(sha256d(ref.Encode(c.Txs[0], false)))); g != w {
+				return fmt.Errorf("after the failed call of %s: TxID() of transaction 0 = %s, want %s", after, g, w)
+			}
+			abused = true
+			continue
 		case "bytes":
 			got, wants = tx.Bytes(), [][]byte{ref.Encode(m, false)}
 		case "ext":
@@ -355,7 +376,7 @@ func genSerial(t *rapid.T) Serial {
 	}
 	ns := rapid.IntRange(2, 10).Draw(t, "nsteps")
 	for i := 0; i < ns; i++ {
-		s := SStep{Kind: rapid.SampledFrom([]string{"cleared", "cleared", "cleared", "varint", "varint", "bytes", "ext", "txidbytes", "inbytes", "outbytes", "outsighash", "txid", "string", "size", "varintlen", "upper", "reverse", "le"}).Draw(t, "kind")}
+		s := SStep{Kind: rapid.SampledFrom([]string{"fail", "fail", "fail", "cleared", "cleared", "cleared", "varint", "varint", "bytes", "ext", "txidbytes", "inbytes", "outbytes", "outsighash", "txid", "string", "size", "varintlen", "upper", "reverse", "le"}).Draw(t, "kind")}
 		s.Tx = rapid.IntRange(0, 2).Draw(t, "tx")
 		s.At = rapid.SampledFrom([]int{0, 0, 1, 2, 3, 251, 252, -1, 7}).Draw(t, "at")
 		switch s.Kind {
@@ -374,6 +395,11 @@ func genSerial(t *rapid.T) Serial {
 			}
 		case "reverse":
 			s.Script = gen.BytesUpTo(t, 40, "rev")
+		case "fail":
+			s.Fail = rapid.SampledFrom(failKinds).Draw(t, "fail")
+			s.At = rapid.IntRange(0, 2000).Draw(t, "fail_at")
+			s.V = uint64(rapid.IntRange(0, 11).Draw(t, "fail_variant"))
+			s.Clear = rapid.Bool().Draw(t, "fail_ext")
 		}
 		switch rapid.IntRange(0, 3).Draw(t, "abuse") {
 		case 0:
@@ -395,7 +421,7 @@ func TestSerialisers(t *testing.T) {
 		Name: "serialisers", Quick: 9000, Thorough: 150000,
 		Gen:      genSerial,
 		Check:    checkSerial,
-		EnumDesc: "VarInt(n).Bytes() for every n in 0..300 and the class edges: the caller appends 300 bytes to the result and overwrites all of its capacity, then all of 0..300 are encoded again; BytesWithClearedInputs(0, script) for every script length 0..300 on a two-input transaction, followed by the same re-encoding and by the sweep transactions",
+		EnumDesc: "VarInt(n).Bytes() for every n in 0..300 and the class edges: the caller appends 300 bytes to the result and overwrites all of its capacity, then all of 0..300 are encoded again; BytesWithClearedInputs(0, script) for every script length 0..300 on a two-input transaction, followed by the same re-encoding and by the sweep transactions; each of the 12 failing calls (serialisers on objects with a nil locking script / nil element / nil transaction, decoders on truncated inputs and breaking readers) at every position 0..len(encoding)-1 x {standard, extended}, followed by ordinary serialisations",
 		Enum: func(tier string, yield func(Serial)) {
 			base := Shape{NIn: 2, NOut: 2, Len: 3, Salt: 5}.model()
 			for v := uint64(0); v <= 300+uint64(len(varintEdges)); v++ {
@@ -407,6 +433,14 @@ func TestSerialisers(t *testing.T) {
 			}
 			for l := 0; l <= 300; l++ {
 				yield(Serial{Txs: []ref.Tx{base}, Sweep: l * 7, Steps: []SStep{{Kind: "cleared", At: l % 2, Script: fixed(l, l)}, {Kind: "bytes"}}})
+			}
+			// every failing call, at every position / cut point, in every entry point variant
+			for _, fk := range failKinds {
+				for _, ext := range []bool{false, true} {
+					for at := 0; at < len(ref.Encode(base, ext)); at++ {
+						yield(Serial{Txs: []ref.Tx{base}, Sweep: at, Steps: []SStep{{Kind: "fail", Fail: fk, At: at, V: uint64(at % 6), Clear: ext}, {Kind: "ext"}, {Kind: "txid"}}})
+					}
+				}
 			}
 		},
 	})
